@@ -7,11 +7,38 @@ ENV = "GOFLAGS=-mod=mod GOPROXY=off GOSUMDB=off GOTOOLCHAIN=local"
 SETUP = ("cd /verif && export %s && mkdir -p bin evidence replays && go1.26.8 build -o bin/ ./cmd/... && bin/bbsim setup" % ENV)
 
 # property -> (technique, level text, note, design ref)
+NOTE = ("Trusted: the sync/time stubs (ports of the documented semantics), the generic instrumentation pass (validated by running the "
+        "library's own 242 baseline tests on the instrumented copy in passthrough mode), Go's channels/select inside a testing/synctest bubble, "
+        "the harness oracle. Sampling of schedules x programs x faults, not enumeration: a clean batch is evidence, not proof.")
+
+def T(what):
+    return ("Seeded exploration: generated programs of the property's harness run against the real, source-instrumented library under a "
+            "simulator that owns every scheduling decision, timer and select/map/random choice; " + what +
+            " Violations are minimised and replayed in a fresh process before they are reported.")
+
+# property -> (technique, level text, note, design ref)
 CLAIMED = {
+    "C01": ("deterministic simulation; order-witness oracle (merged successor relation + auditor consumer) over recorded history with real-time brackets",
+            T("checks that all observers' streams and Slice snapshots embed into one total put order (contiguity, batches, real-time order, no loss, start point)."), NOTE, "DESIGN.md section 5 (C01)"),
+    "C02": ("deterministic simulation; per-consumer sequential transaction model, porcupine linearizability for shared consumers, scripted Range callbacks (stop/panic/put)",
+            T("steps a commit/rollback model per consumer, checks Range/Buffer.Range against it (panic and error roll back the in-flight value, Buffer.Range stops at the end), and checks shared consumers for linearizability."), NOTE, "DESIGN.md section 5 (C02)"),
+    "C03": ("deterministic simulation with forced-trim fault injection; eviction brackets on Slice/Size/Diff, loud-failure oracle, reference cleaner",
+            T("injects forced trims (FixedBufferCleaner, adversarial cleaners) under lagging consumers and checks retention under the default cleaner, loud failure after eviction, Slice/Size/Diff brackets and every cleaner invocation against a reference."), NOTE, "DESIGN.md section 5 (C03)"),
+    "C04": ("deterministic simulation; quiescence oracle with all simulated timers drained (bounded liveness), cooldown/last-commit placement by the scheduler",
+            T("places the last commits/closes inside cooldown windows and checks at exact quiescence (no task runnable, no timer pending) that the buffer holds exactly the slowest open consumer's backlog / at most max."), NOTE, "DESIGN.md section 5 (C04)"),
     "C05": ("deterministic simulation: seeded schedules x cancel/close/put placements; quiescence oracle for lost wake-ups, sequential model for failed Gets",
-            "Seeded exploration of generated programs (blocked Gets and direct WaitCond waiters, with Puts, context cancellations and Buffer.Close placed by the scheduler before the check, between check and park, and after the park) over the real, instrumented library; every scheduling decision is owned by the simulator, so 'no wake-up is lost' is checked at exact quiescence instead of by sleeping.",
-            "Trusted: the sync/time stubs (ports of the documented semantics), the instrumentation pass, Go's channels/select inside a synctest bubble. Sampling, not enumeration.",
-            "DESIGN.md section 5 (C05)"),
+            T("places Puts, context cancellations and Buffer.Close before the check, between check and park, and after the park of blocked Gets and direct WaitCond waiters; 'no wake-up is lost' is checked at exact quiescence instead of by sleeping."), NOTE, "DESIGN.md section 5 (C05)"),
+    "C09": ("deterministic simulation; interval non-overlap per key, other-keys-complete-while-held at quiescence",
+            T("mixes every Exclusive call style over 1-3 keys with work functions that resolve early, are held on gates, or never resolve, and checks per-key execution intervals for overlap and cross-key independence at quiescence."), NOTE, "DESIGN.md section 5 (C09)"),
+    "C10": ("deterministic simulation; call-to-execution attribution by stamps, exactly-one-outcome, coalescing and fresh-call oracles",
+            T("attributes every outcome to an execution begun after the call, checks identical outcomes for coalesced callers, forced resolve, Start follow-up, executions <= calls and absence of leftover per-key state."), NOTE, "DESIGN.md section 5 (C10)"),
+    "C11": ("deterministic simulation under the Go race detector: simulator hand-offs hidden (RaceDisable), shims annotated with the real primitives' happens-before edges",
+            T("the same kinds of concurrent workloads are rebuilt with -race; the detector sees only the program's own synchronisation, on schedules the simulator chooses, and reports are attributed to the seed that produced them."),
+            NOTE + " The race detector's own shadow memory is bounded, so a report may need more than one fresh process to recur on replay.", "DESIGN.md sections 3.8, 5 (C11)"),
+    "C14": ("deterministic simulation; exactly-once/result identity, online concurrency bound, starvation and Wait oracles at quiescence",
+            T("drives Workers with equal, arbitrary and decreasing counts and functions held on gates; checks exactly-once execution, the running bound against the largest count requested so far, no starvation at quiescence, and Wait/Count."), NOTE, "DESIGN.md section 5 (C14)"),
+    "C17": ("deterministic simulation; per-step stop-channel polling for exact close stamps, interval and holder oracles",
+            T("interleaves Do/done of 1-5 holders with instances starting, stopping and exiting; a per-step hook stamps exactly when each stop channel closes, so 'stopped only after every holder is done' is decided exactly."), NOTE, "DESIGN.md section 5 (C17)"),
 }
 
 NOT_YET = "check not built yet in this session (framework under construction); see DESIGN.md section 5"
